@@ -608,7 +608,7 @@ def main(argv):
                     rule="read: every payload class (empty, 1 byte, tiny, text, incompressible 5k/40k, 70k zeros) x {gz,bz,xz} x fragmentations (whole, random, 1-byte, every split point of small streams, 16384-boundary) x request sizes; 2-4 concatenated members of mixed codecs; member ends placed around the 16384-byte refill; truncation at every byte of small streams and at buffer boundaries of large ones; plain data of length 0-13 and large, near-magic prefixes; write: op sequences (writes of 0..70000 bytes, flush positions, none at all) x {none,gzip,bzip2}; GZCompress sizes 0-19, around 4096, large, levels 0/1/6/9. distinct = distinct non-empty cases",
                     assumptions=["the codecs obey the contract stated as Section hypotheses (tested on every logged call of this run: cursors monotone, progress, END exactly at member end, return code on avail_in=0 before END)",
                                  "fragment delivery: one read(2) returns min(request, rest of the current fragment) (the harness writes a fragment only when the pipe is empty)",
-                                 "write sizes below 2^32 (the kSizeMax chunking loop of WriteStream::write is not modelled)"])
+                                 "write sizes of 2^32 bytes and more (the kSizeMax chunking recursion of WriteStream::write) are modelled and proved but never exercised"])
 
 
 if __name__ == "__main__":
